@@ -3,7 +3,7 @@
 COMMON_D_ASSUMPTIONS = [
     "engine D: the transplanted source is compiled by rustc and executed natively under symrt; std HashMap/HashSet are the real std containers with a fixed (seed-selected) hasher state so that re-execution is deterministic",
     "hashes (SHA-256 of key bytes / SHA-3 of content) are a collision-free function on the finite key universe: H[id] is a free 256-bit symbolic value per id, pairwise distinct",
-    "convert_distance_to_u256 is the identity on the 256-bit distance (checked separately under C11)",
+    "convert_distance_to_u256 is the real function (item transplanted from ant-protocol/src/lib.rs) run on the Debug text of the shim Distance, which prints what libp2p prints: `Distance(<decimal digits>)`; the decimal text of a symbolic value is a 90-digit placeholder number (longer than any 256-bit value) that the shim's FromStr maps back to the term, constants print and parse as their real digits; trusted: uint's Debug prints plain decimal and ruint's FromStr parses it (both libraries are out of the solvers' reach)",
     "tracing macros are no-ops; spawn pushes a task on a list that the harness runs; mpsc channels are unbounded recorders",
 ]
 
@@ -321,6 +321,9 @@ PROPS = {
             {"engine": "K", "crate": "k_proto", "harnesses": [
                 kh(f"c17_register_from_hex_decoded_len{n}", f"RegisterAddress::from_hex when the text decodes to {n} bytes: error or value, never a panic", f"all contents, decoded length {n}", ["hex::decode -> vector of that length with symbolic bytes (or Err)", "bls::PublicKey::from_bytes -> Err (blst FFI)"])
                 for n in (0, 1, 31, 32, 33, 79, 80, 81)
+            ] + [
+                kh(f"c17_register_from_hex_non_ascii_across_offset_{n}", f"RegisterAddress::from_hex on text of the accepted length (160 bytes) whose two-byte character straddles byte offset {n}: error, never a panic", "one concrete text; the decoder's answer symbolic (any 80 bytes or an error)", ["hex::decode -> 80 symbolic bytes (or Err)", "bls::PublicKey::from_bytes -> Err (blst FFI)"])
+                for n in (64, 32, 1)
             ]},
             {"engine": "K", "crate": "k_misc", "harnesses": [
                 kh("c17_increment_port_option_never_overflows", "increment_port_option over Option<u16>", "all 65536 ports and None"),
@@ -405,3 +408,17 @@ PROPS = {
         "outside": ["more keys/steps than the bound", "real disk", "SHA-256 itself"],
     },
 }
+
+# thorough tier of the properties whose harnesses have no larger bound of their own: the same harnesses under further
+# hasher seeds (other iteration orders of the std HashMap / HashSet inside the transplanted code)
+for _pid in ("C03", "C04", "C07", "C09", "C11", "C15"):
+    for _part in PROPS[_pid]["parts"]:
+        if _part["engine"] != "D":
+            continue
+        for _h in _part["harnesses"]:
+            if "thorough" not in _h and "quick" in _h:
+                _t = dict(_h["quick"])
+                _t["seeds"] = [0, 1, 2]
+                _t["timeout"] = max(_t.get("timeout", 600), 1200)
+                _h["thorough"] = _t
+    PROPS[_pid]["bounds"].setdefault("thorough", "the quick bounds under three hasher seeds (other iteration orders of the hash maps inside the transplanted code)")
